@@ -275,7 +275,7 @@ func run(c *reg.Ctx) {
 		{vals.MakeList(vals.MakeMap("k", vals.MakeList(1, nz))), vals.MakeList(vals.MakeMap("k", vals.MakeList(1, 0.0)))},
 		{1477884782, 1477884782.0}, {1, 1.0}, {math.NaN(), math.NaN()}, {vals.MakeList(math.NaN()), vals.MakeList(math.NaN())},
 		{big64, new(big.Int).Mul(big.NewInt(1<<32), big.NewInt(1<<32))},
-		{big.NewRat(1, 3), big.NewRat(5, 15)}, {big.NewRat(-7, 2), big.NewRat(7, -2)},
+		{big.NewRat(1, 3), big.NewRat(5, 15)}, {big.NewRat(-7, 2), big.NewRat(7, -2)}, {big.NewRat(1, 2), big.NewRat(1, 3)}, {big.NewRat(2, 3), big.NewRat(1, 3)},
 		{c08val.FM{Name: "x", Size: 2}, vals.MakeMap("size", 2, "name", "x")},
 		{vals.MakeMap("size", 2, "name", "x"), c08val.FM{Name: "x", Size: 2}},
 		{c08val.FM{Name: "x", Size: 2}, c08val.FM{Name: "x", Size: 2}},
